@@ -841,7 +841,9 @@ func init() {
 				return StrV{S: strconv.FormatFloat(f, byte(fm), prec, bits)}
 			}
 			// injective UF rendering: token distinct per numeric value (stated model)
-			return w.ufString(s, "fmtfloat", t)
+			fm, _ := concInt(args[1])
+			prec, _ := concInt(args[2])
+			return w.floatString(s, t, byte(fm), prec)
 		},
 		"strconv.ParseFloat": func(w *W, s *State, args []Value) Value {
 			str := args[0].(StrV)
@@ -932,7 +934,9 @@ func init() {
 				bits, _ := concInt(args[4])
 				str = StrV{S: strconv.FormatFloat(f, byte(fm), prec, bits)}
 			} else {
-				str = w.ufString(s, "fmtfloat", t).(StrV)
+				fm, _ := concInt(args[2])
+				prec, _ := concInt(args[3])
+				str = w.floatString(s, t, byte(fm), prec)
 			}
 			return w.builtinAppendStr(s, args[0].(SliceV), str)
 		},
@@ -1166,7 +1170,45 @@ func (w *W) ufString(s *State, fn string, t *Term) Value {
 	} else {
 		s.pc = append(s.pc, Eq(inv, t))
 	}
+	// renderings of different families never coincide: the decimal digits of an int64, those of a
+	// uint64 beyond the int64 range, and a float's rendering that is not a plain integer
+	switch {
+	case fn == "dec":
+		s.pc = append(s.pc, Eq(bs[width-1], ConstU(0xFE, 8)))
+	case fn == "decu":
+		s.pc = append(s.pc, Eq(bs[width-1], ConstU(0xFD, 8)))
+	case strings.HasPrefix(fn, "fmtfloat"):
+		s.pc = append(s.pc, Eq(bs[width-1], ConstU(0xFF, 8)))
+	}
 	w.e.noteModel("uf-string:" + fn)
+	return StrV{Sym: bs}
+}
+
+// floatString renders a symbolic float. In the shortest formats ('f', 'g' and %v with precision
+// -1) a value that is integral and inside the int64 range (and not -0) prints exactly like that
+// integer, so it gets the integer's token; every other value gets an injective token of the
+// float family, which coincides with no integer's.
+func (w *W) floatString(s *State, t *Term, fm byte, prec int) StrV {
+	if prec != -1 || (fm != 'f' && fm != 'g' && fm != 'v') {
+		return w.ufString(s, fmt.Sprintf("fmtfloat_%c%d", fm, prec), t).(StrV)
+	}
+	t64 := t
+	if t.S != F64 {
+		t64 = mk("to_fp_f", F64, t)
+	}
+	lim := math.Ldexp(1, 63)
+	integral := And(FpEq(t64, mk("fp.rtz", F64, t64)), And(FpCmp("fp.geq", t64, ConstF(-lim)), FpCmp("fp.lt", t64, ConstF(lim))))
+	if fm != 'f' {
+		// shortest %g switches to exponent form from 1e6 on ("1e+06"), which no integer prints as
+		integral = And(integral, And(FpCmp("fp.gt", t64, ConstF(-1e6)), FpCmp("fp.lt", t64, ConstF(1e6))))
+	}
+	integral = And(integral, Not(And(mk("fp.isZero", BoolSort, t64), mk("fp.isNegative", BoolSort, t64))))
+	d := w.ufString(s, "dec", mk("fp.to_sbv", BV(64), t64)).(StrV)
+	u := w.ufString(s, "fmtfloat", t).(StrV)
+	bs := make([]*Term, len(u.Sym))
+	for i := range bs {
+		bs[i] = Ite(integral, d.Sym[i], u.Sym[i])
+	}
 	return StrV{Sym: bs}
 }
 
@@ -1283,7 +1325,10 @@ func (w *W) fmtArg(s *State, a Value, verb byte) StrV {
 		if v.S.K == KBV {
 			return w.decString(s, v, isSigned(iv.T)).(StrV)
 		}
-		return w.ufString(s, "fmtfloat", v).(StrV)
+		if verb == 'v' || verb == 'g' {
+			return w.floatString(s, v, 'g', -1)
+		}
+		return w.ufString(s, "fmtfloat_"+string(verb), v).(StrV)
 	}
 	if r, ok := w.fmtComposite(s, iv.T, iv.V, plus); ok {
 		return r
